@@ -17,7 +17,7 @@ import signal
 import subprocess
 import time
 
-WORKER_BIN = os.environ.get("MVERIF_BIN", "/verif/target/verif/mverif")
+WORKER_BIN = os.environ.get("MVERIF_BIN", os.path.join(os.environ.get("VERIF_ROOT", "/verif"), "target/verif/mverif"))
 
 
 class Wedged(Exception):
